@@ -1,5 +1,5 @@
 """C05 - per-order matching rules: reference agreement (E5) for OrderType::match_against."""
-from ..terms import (Int, TRUE, FALSE, agg, affine, prove_zero, short, is_int)
+from ..terms import (unsign, Int, TRUE, FALSE, agg, affine, prove_zero, short, is_int)
 from ..common import describe_path, is_adt
 from ..db import AnchorError
 
@@ -147,7 +147,7 @@ def run(ctx, chk):
                     fd = dict(order[3])
                     for f in R.identity_fields(V):
                         want = ("field", SUBJ, V, f)
-                        chk.require(fd.get(f) == want, "A2", "%s:%s:%s" % (fn_key, V, f), site,
+                        chk.require(unsign(fd.get(f)) == want, "A2", "%s:%s:%s" % (fn_key, V, f), site,
                                     "field %s of the returned order is %s, expected self.%s" % (f, short(fd.get(f)), f), describe_path(p))
                 d2, h2 = R.role(order, p.facts, "display"), R.role(order, p.facts, "reserve")
             # ---- A5 direct consequences
